@@ -19,6 +19,7 @@ type Plan struct {
 	K        int     `json:"k"`
 	T        int     `json:"t"`
 	SortMode string  `json:"sortmode"`
+	RegMode  string  `json:"regmode"`
 	Designed []int   `json:"designed"` // h: indices into Designed; n: into NetDesigned
 	Seeded   [][]int `json:"seeded"`   // h: <<n1, n2, n3, ns>> decoded by UniAt
 	MaxRep   int     `json:"maxRep"`
@@ -72,6 +73,13 @@ func (p Plan) sortMode() string {
 // mcFiles: lists == nil is phase 1 (TLC only evaluates cLists, the identity lists the universes of the
 // plan can trigger, and prints them with the universes); phase 2 gets them back as a literal, because a
 // constant replaced by a defined operator (Lists <- cLists) is re-evaluated at every use (5x slower).
+func (p Plan) regMode() string {
+	if p.RegMode == "" {
+		return "asfound"
+	}
+	return p.RegMode
+}
+
 func (p Plan) mcFiles(lists [][]int) (string, map[string][]byte, string) {
 	mod := p.modName("MCgen_primev_")
 	listsLine, listsCfg, specLines := "", " Lists <- cLists\n", ""
@@ -85,8 +93,8 @@ func (p Plan) mcFiles(lists [][]int) (string, map[string][]byte, string) {
 	switch p.Kind {
 	case "h":
 		body := fmt.Sprintf("---- MODULE %s ----\nEXTENDS PrimevFlowMC\ncDesigned == %s\ncSeeded == %s\n%s====\n", mod, intSeq(p.Designed), intSeqSeq(p.Seeded), listsLine)
-		cfg := fmt.Sprintf("CONSTANTS\n K = %d\n T = %d\n%s SortMode = %q\n DesignedIdx <- cDesigned\n SeededIdx <- cSeeded\n MaxRep = %d\n MaxFault = %d\n MaxSync = %d\n Emit = %s\n EdgeMode = %s\n",
-			p.K, p.T, listsCfg, p.sortMode(), p.MaxRep, p.MaxFault, p.MaxSync, tlaBool(lists != nil), tlaBool(p.Edge))
+		cfg := fmt.Sprintf("CONSTANTS\n K = %d\n T = %d\n%s SortMode = %q\n RegMode = %q\n DesignedIdx <- cDesigned\n SeededIdx <- cSeeded\n MaxRep = %d\n MaxFault = %d\n MaxSync = %d\n Emit = %s\n EdgeMode = %s\n",
+			p.K, p.T, listsCfg, p.sortMode(), p.regMode(), p.MaxRep, p.MaxFault, p.MaxSync, tlaBool(lists != nil), tlaBool(p.Edge))
 		if lists == nil {
 			cfg += specLines
 		} else {
@@ -95,8 +103,8 @@ func (p Plan) mcFiles(lists [][]int) (string, map[string][]byte, string) {
 		return mod, map[string][]byte{mod + ".tla": []byte(body)}, cfg
 	default:
 		body := fmt.Sprintf("---- MODULE %s ----\nEXTENDS PrimevFlowNetMC\ncNet == %s\n%s====\n", mod, intSeq(p.Designed), listsLine)
-		cfg := fmt.Sprintf("CONSTANTS\n K = %d\n T = %d\n%s SortMode = %q\n NetIdx <- cNet\n MaxCDup = %d\n MaxDup = %d\n MaxLoss = %d\n ProcNet = %d\n Emit = %s\n",
-			p.K, p.T, listsCfg, p.sortMode(), p.MaxCDup, p.MaxDup, p.MaxLoss, p.ProcNet, tlaBool(p.Kind == "n" && lists != nil))
+		cfg := fmt.Sprintf("CONSTANTS\n K = %d\n T = %d\n%s SortMode = %q\n RegMode = %q\n NetIdx <- cNet\n MaxCDup = %d\n MaxDup = %d\n MaxLoss = %d\n ProcNet = %d\n Emit = %s\n",
+			p.K, p.T, listsCfg, p.sortMode(), p.regMode(), p.MaxCDup, p.MaxDup, p.MaxLoss, p.ProcNet, tlaBool(p.Kind == "n" && lists != nil))
 		if lists == nil {
 			cfg += specLines
 		} else if p.Kind == "live" {
@@ -111,8 +119,8 @@ func (p Plan) mcFiles(lists [][]int) (string, map[string][]byte, string) {
 func (p Plan) trFiles(lists [][]int, trace []byte) (string, map[string][]byte, string) {
 	mod := p.modName("TRgen_primev_")
 	body := fmt.Sprintf("---- MODULE %s ----\nEXTENDS PrimevFlowTrace\ncLists == %s\n====\n", mod, intSeqSeq(lists))
-	cfg := fmt.Sprintf("CONSTANTS\n K = %d\n T = %d\n Lists <- cLists\n SortMode = %q\n TraceFile = \"trace.ndjson\"\nSPECIFICATION TSpec\nINVARIANT Done\nCHECK_DEADLOCK FALSE\n",
-		p.K, p.T, p.sortMode())
+	cfg := fmt.Sprintf("CONSTANTS\n K = %d\n T = %d\n Lists <- cLists\n SortMode = %q\n RegMode = %q\n TraceFile = \"trace.ndjson\"\nSPECIFICATION TSpec\nINVARIANT Done\nCHECK_DEADLOCK FALSE\n",
+		p.K, p.T, p.sortMode(), p.regMode())
 	return mod, map[string][]byte{mod + ".tla": []byte(body), "trace.ndjson": trace}, cfg
 }
 
